@@ -90,7 +90,7 @@ class C05(Spec):
             "(result kind value/error/Set x call offset 0,1,E-1,E,E+1,2E-1,2E,2E+1,5E x Load/Get2 x refresh duration) plus random "
             "stories with call instants biased to u+E, u+2E +-1 ns, completion instants and sweep ticks (multiples of 4*En). "
             "Compared (monitor mode): all events with virtual times, future identities, pairs. non-trivial = some call is issued "
-            "at age >= E of an earlier result Round-2 classes: 128..1000 entries of ONE shard rotted at a sweep tick plus stale / fresh / in-flight entries of the same shard queried right after it; loads in flight across many ticks.")
+            "at age >= E of an earlier result Round-2 classes: 128..1000 entries of ONE shard rotted at a sweep tick plus stale / fresh / in-flight entries of the same shard queried right after it; loads in flight across many ticks. Round-3/4: error-result chains, calls tied with the sweep tick, colliding string keys.")
     trusted_base = CACHE_TRUSTED
     assumptions = ["loaders are functions of the scenario script (duration, result)"]
 
